@@ -15,6 +15,7 @@ THEOREMS = [
     "XcmModel.TimerProps.timer_inv_run", "XcmModel.TimerProps.C16_timer_quiet", "XcmModel.TimerProps.C16_no_timers_quiet", "XcmModel.TimerProps.C16_wakeup_confirmed",
     "XcmModel.DnsProps.dns_inv_run", "XcmModel.DnsProps.C16_dns_quiet",
     "XcmModel.FuncsTie.conn_event_tie", "XcmModel.FuncsTie.server_event_tie",
+    "XcmModel.FuncsTie.next_capacity_tie",
 ]
 
 
